@@ -243,6 +243,14 @@ func registerIntrinsics(e *Exec) {
 		}
 		return &Iface{Typ: rt.At(0).Type(), Val: res}
 	}
+	in["vh:vhRecord"] = func(e *Exec, a []Value, _ *ssa.CallCommon) Value {
+		t, ok := a[1].(*Term)
+		if !ok || !t.IsConst() {
+			e.unsupported("vhRecord of a non-constant value")
+		}
+		e.res.Records = append(e.res.Records, fmt.Sprintf("%s %d", e.argStr(a[0], "vhRecord"), t.Val))
+		return nil
+	}
 	in["vh:vhNote"] = func(e *Exec, a []Value, _ *ssa.CallCommon) Value { return nil }
 	in["vh:vhSymbolic"] = func(e *Exec, a []Value, _ *ssa.CallCommon) Value { return e.tb.True }
 
